@@ -82,6 +82,10 @@ func H_C19_sign1() {
 	if fresh.Headers.Unprotected != nil {
 		fresh.Headers.Unprotected[int64(4)] = []byte{7}
 	}
+	vScribble(fresh.Headers.RawProtected)
+	vScribble(fresh.Headers.RawUnprotected)
+	vScribble(fresh.Payload)
+	vScribble(fresh.Signature)
 	vUnfreeze()
 	vAssert("sign1: two decoded values share no memory (editing one leaves the other as it was)", !vChanged(&dst, snapD))
 	vReach("accepted")
